@@ -125,7 +125,7 @@ def run(check: Check) -> None:
     fns = {
         "shunting": [None], "shunting_paren": [None],
         "signrun": [{"SHARD": c, "N": (5 if thorough else 3)} for c in range(8)],
-        "identity": list(range(23)), "forms": [None], "sides": list(range(10)),
+        "identity": list(range(40)), "forms": [None], "sides": list(range(10)),
         "stream1": list(range(16)), "stream2": list(range(16)),
         "stream3": list(range(19)),
     }
